@@ -10,7 +10,7 @@ MANIFEST = {
     "text": "TLC evaluates the TLA+ specification Cfg.tla (the CFG as an exact function of the program: node bag, edge bag, entry nodes) "
             "on every recorded call of get_program_cfg/get_entry_nodes_of_subs for randomly generated well-formed normalised multi-function "
             "programs (direct from the generator and as produced by normalize_basic on raw programs) and, in the thorough tier, for all "
-            "programs with <= 2 functions x <= 2 blocks over a 10-shape jump alphabet; Cfg.tla itself is model-checked against hand-derived "
+            "programs with <= 2 functions x <= 2 blocks over a 12-shape jump alphabet; Cfg.tla itself is model-checked against hand-derived "
             "graphs (among them the three programs of the repository's graph tests) and for internal consistency on all tiny programs; "
             "bounded: programs have at most 5 functions x 6 blocks.",
     "note": "Trusted: TLC + CommunityModules Json/IOUtils, the projections harness/src/irenc.rs and cfgenc.rs (canary-checked every run), "
@@ -48,8 +48,8 @@ def check(seed, tier):
         "direct_programs": meta["extra"].get("direct_programs"), "normalized_programs": meta["extra"].get("normalized_programs"),
         "skipped_not_wellformed": skipped,
         "mc_runs": rep.cov.get("mc_runs"), "trusted_base": TRUSTED,
-    }, ["programs: 1-5 functions x 0-6 blocks, blocks end in 0/1/2 jumps (two = CBranch + Branch/BranchInd/Return); "
+    }, ["programs: 1-5 functions x 0-6 blocks, blocks end in 0/1/2 jumps (two = CBranch + Branch/BranchInd/Return/Call/CallInd/CallOther); "
         "well-formed normalised = unique TIDs, intraprocedural targets in the same function, call targets exist",
         "nodes and edges are compared as bags of records built from TIDs; petgraph indices are not compared",
-        "thorough tier: exhaustive over all programs with <= 2 functions x <= 2 blocks over a 10-shape alphabet" if tier == "thorough"
+        "thorough tier: exhaustive over all programs with <= 2 functions x <= 2 blocks over a 12-shape alphabet" if tier == "thorough"
         else "quick tier: random programs only (thorough adds the exhaustive small-program enumeration)"])
